@@ -99,8 +99,6 @@ theorem stepPc_locks (H : Bytes → Bytes) (tid : Tid) (sh : Shared) (pc : Pc)
   | ckWal t =>
     simp [stepPc, holdsIntents, holdsState] at *
     exact ⟨hi, Or.inr hs⟩
-  | guardDrop k h committed res =>
-    simp [stepPc, holdsIntents, holdsState] at *; exact ⟨hi, hs⟩
   | rmScan k =>
     simp only [stepPc]
     split <;> (simp [holdsIntents, holdsState] at *; exact ⟨hi, hs⟩)
